@@ -23,7 +23,7 @@ def generate(mode, k, sc, tag=""):
     return worlds_path, cases_path, len(r.cases), r
 
 
-def serve(worlds_path, cases_path, sc, obs="full", triple=False, stats=True, tag="", wire=False):
+def serve(worlds_path, cases_path, sc, obs="full", triple=False, stats=True, tag="", wire=False, rewrite=False):
     trace = sc.path("trace%s.ndjson" % tag)
     scratch = sc.path("trees%s" % tag)
     os.makedirs(scratch, exist_ok=True)
@@ -32,6 +32,8 @@ def serve(worlds_path, cases_path, sc, obs="full", triple=False, stats=True, tag
         args.append("--triple")
     if stats:
         args.append("--stats")
+    if rewrite:
+        args.append("--rewrite")      # second pass over the same cases after the files were rewritten in place (same length, same mtime)
     if wire:
         args += ["--bin", vlib.build_rws_binary()]
     vlib.run_harness(args, timeout=3000)
